@@ -102,6 +102,8 @@ ENABLED_ENTRIES = [
     "sim/closersim/ENTRY.py",
     "sim/circuitsim/ENTRY.py",
     "sim/ntfnsim/ENTRY.py",
+    "sim/invsim/ENTRY.py",
+    "sim/gossipsim/ENTRY.py",
 ]
 
 
